@@ -30,11 +30,13 @@ def oraclize(qf: QlassF, element: Any, name="oracle"):
     """Transform a QlassF qf and an element to an oracle {f(x) = x == element}"""
     argt_name = type_repr(qf.args[0].ttype)
 
-    if qf.name == name:
-        qf.name = f"_{name}"
+    # If the function is named like the oracle, rename its definition (not the function)
+    qf_def = qf.to_logicfun()
+    if qf_def[0] == name:
+        qf_def = (f"_{name}",) + tuple(qf_def[1:])
 
-    fs = f"def {name}(v: {argt_name}) -> bool:\n   return {qf.name}(v) == {element}"
-    oracle = QlassF.from_function(fs, defs=[qf.to_logicfun()])
+    fs = f"def {name}(v: {argt_name}) -> bool:\n   return {qf_def[0]}(v) == {element}"
+    oracle = QlassF.from_function(fs, defs=[qf_def])
 
     if (
         len(oracle.expressions) == 1
